@@ -8,6 +8,9 @@ INVARIANT J_TourJobsSync
 INVARIANT J_MultiWhole
 INVARIANT J_ParentUnchanged
 INVARIANT J_CacheFresh
+INVARIANT J_VectorsFreshAfterEveryInsertion
+INVARIANT J_TourScalarsFreshAfterEveryInsertion
+INVARIANT J_AggregatesFreshAfterEveryInsertion
 INVARIANT J_FitnessFunctionOfTours
 INVARIANT J_PlacesAndWindows
 INVARIANT J_Reach
